@@ -94,6 +94,11 @@ def gen_case(run_seed: int, tier: str, index: int = 0) -> dict:
         pre_files["m/" + dest] = bytes(r.getrandbits(8) for _ in range(r.choice([0, 1, 33, 200]))).hex()
         if r.random() < 0.5:
             pre_modes["m/" + dest] = r.choice([0o600, 0o444, 0o664])
+    dird = st.rng("directory-like-dest")
+    if scenario == "absent" and dird.random() < 0.25:
+        # an option that can only fail: the destination names a directory (trailing separator, '.', an existing
+        # directory) - the save must raise and leave nothing behind
+        dest = dird.choice(["sub/", "sub/.", ".", "sub", "sub//"])
     dds = st.rng("dotdot-dest-single")
     if scenario in ("absent", "foreign") and "/" not in dest and dds.random() < 0.3:
         # single-file save whose destination directory is spelled with a `..` after a symlinked directory: the OS
@@ -684,6 +689,20 @@ def _run_case(case: dict) -> dict:
         elif not expected_refusal:
             inc("reference_raised")
             res["ref_error"] = ref_err
+            # the options cannot be honoured (a destination that names a directory, say): the failure clauses still
+            # apply to the save that raises - previous bytes kept, nothing temporary left, tensors valid
+            dry = exec_once(case, None, ref_new)
+            if dry["error"]:
+                return res
+            inc("fault_free_save_raises_checked")
+            if dry["violation"]:
+                c = copy.deepcopy(case)
+                c["plan"] = {}
+                if dry.get("recorded_schedule") is not None:
+                    c["schedule"] = dry["recorded_schedule"]
+                res["violations"].append(dry["violation"])
+                res["case"] = c
+                res["violation"] = dry["violation"]
             return res
         inc("sharded_refused_collision")
     wkey = digest((case["tensors"], case["graphs"], case["options"], case["scenario"], case["entry"], case["sim"], case["ext_files"], case["pre_files"]))
